@@ -36,6 +36,7 @@ type VerifPipeCase struct {
 	Streams [][][]int       `json:"streams"`
 	EofLast bool            `json:"eof_last"` // last batch is returned together with io.EOF (legal for a Streamer)
 	Par     int             `json:"par"`      // >1: build chains with SetupQueryParallelism, one synthetic stream per chain
+	Sparse  bool            `json:"sparse"`   // a column that is null in every row of a batch is absent from that batch's IQR (as a segment without that column)
 }
 
 type VerifPipeResult struct {
@@ -92,8 +93,15 @@ func (s *verifStream) mk(idx []int) (*iqr.IQR, error) {
 	kv := map[string][]sutils.CValueEnclosure{}
 	for ci, cn := range s.c.Cols {
 		vals := make([]sutils.CValueEnclosure, len(idx))
+		allNull := len(idx) > 0
 		for k, ri := range idx {
 			vals[k] = verifToCVal(s.c.Rows[ri][ci])
+			if s.c.Rows[ri][ci] != nil {
+				allNull = false
+			}
+		}
+		if s.c.Sparse && allNull {
+			continue
 		}
 		kv[cn] = vals
 	}
@@ -192,20 +200,31 @@ func verifBuild(c *VerifPipeCase, aggs *structs.QueryAggregators) (*DataProcesso
 		_ = setMergeSettings(ch)
 		return ch
 	}
-	var chains [][]*DataProcessor
-	if c.Par > 1 {
-		old := runtimeGOMAXPROCS(c.Par)
-		var err error
-		chains, err = SetupQueryParallelism(false, factory)
-		runtimeGOMAXPROCS(old)
-		if err != nil {
-			return nil, "", 0, err
-		}
-	} else {
-		chains = [][]*DataProcessor{factory()}
+	// exactly what NewQueryProcessor does, also for one chain: SetupQueryParallelism inserts the merger DP after a
+	// mergeable bottleneck (sort, stats) and switches stats to IQR-stats results even when GOMAXPROCS = 1
+	par := c.Par
+	if par < 1 {
+		par = 1
+	}
+	old := runtimeGOMAXPROCS(par)
+	chains, err := SetupQueryParallelism(false, factory)
+	runtimeGOMAXPROCS(old)
+	if err != nil {
+		return nil, "", 0, err
 	}
 	if len(chains) == 0 || len(chains[0]) == 0 {
 		return nil, "", 0, fmt.Errorf("no data processors for %q", c.Spl)
+	}
+	// clones that are empty (the merge point is the first command) read nothing of their own in the engine: the
+	// shared searcher stream is then consumed by chain 0 alone
+	live := 0
+	for _, ch := range chains {
+		if len(ch) > 0 {
+			live++
+		}
+	}
+	if live == 1 {
+		chains = chains[:1]
 	}
 	if len(chains) != len(c.Streams) && !(len(chains) == 1) {
 		return nil, "", len(chains), fmt.Errorf("chains=%d streams=%d", len(chains), len(c.Streams))
@@ -242,6 +261,12 @@ func verifBuild(c *VerifPipeCase, aggs *structs.QueryAggregators) (*DataProcesso
 func runtimeGOMAXPROCS(n int) int { return runtime.GOMAXPROCS(n) }
 
 func bytesReaderVerif(b []byte) io.Reader { return bytes.NewReader(b) }
+
+func iqrNewVerif(kv map[string][]sutils.CValueEnclosure) *iqr.IQR {
+	q := iqr.NewIQR(0)
+	_ = q.AppendKnownValues(kv)
+	return q
+}
 
 var VerifParse func(spl string) (*structs.QueryAggregators, error)
 
